@@ -769,6 +769,55 @@ func runC12(c *Ctx) {
 						}
 					}
 				}
+				if cond == nil {
+					// the same decision through a flag: the case stores the condition in a boolean that
+					// is false otherwise, and the one `return …, true, …` after the switch stands under it
+					var flags []types.Object
+					for _, st := range csr.Decl.Body.List {
+						if st.Pos() < sw.End() {
+							continue
+						}
+						if ifs, isIf := st.(*ast.IfStmt); isIf && ifs.Else == nil {
+							rets := returnsIn(ifs.Body.List)
+							if o := objOf(info, ifs.Cond); o != nil && len(rets) == 1 && len(rets[0].Results) == 4 && exprStr(rets[0].Results[1]) == "true" {
+								flags = append(flags, o)
+							}
+						}
+					}
+					for _, flag := range flags {
+						// written only inside the comparison cases of this switch
+						writers, outside := 0, false
+						ast.Inspect(csr.Decl.Body, func(nd ast.Node) bool {
+							as, isAs := nd.(*ast.AssignStmt)
+							if !isAs {
+								return true
+							}
+							for _, l := range as.Lhs {
+								if objOf(info, l) == flag {
+									writers++
+									if as.Pos() < sw.Pos() || as.End() > sw.End() {
+										outside = true
+									}
+								}
+							}
+							return true
+						})
+						if outside || writers == 0 {
+							continue
+						}
+						for _, st := range cs.Clause.Body {
+							as, isAs := st.(*ast.AssignStmt)
+							if !isAs || len(as.Lhs) != len(as.Rhs) {
+								continue
+							}
+							for i, l := range as.Lhs {
+								if objOf(info, l) == flag {
+									cond, _ = ast.Unparen(as.Rhs[i]).(*ast.BinaryExpr)
+								}
+							}
+						}
+					}
+				}
 				ok := false
 				got := "?"
 				if cond != nil {
